@@ -9,6 +9,7 @@
 -/
 import Jawk.Props.C16Steps
 import Jawk.Lemmas.Locality
+import Jawk.Lemmas.WriteAll
 namespace Jawk.C16
 open Jawk Loc
 
@@ -58,5 +59,14 @@ theorem streaming_prefix (name : Option Str) (pre post cont : List RItem) (rest 
     (run orc c (⟨name, pre ++ RItem.err :: post⟩ :: rest) wOut wErr).stderr
       <+: (run orc c (⟨name, pre ++ cont⟩ :: rest₂) wOut wErr).stderr :=
   streaming_prefix_run orc c p name pre post cont rest rest₂ wOut wErr w0 e hb hs h hp
+
+/-! ### what `Writer.put` stands for -/
+
+/-- `Writer.put` models `write_all`: over a descriptor that takes ANY non-empty prefix of what it is offered, the loop
+delivers exactly the bytes, in order — which is `put` on a descriptor with room.  (The correspondence run's writers do
+accept only part of an offer now and then; a bare `write` whose count is ignored would lose the rest: `WriteAll.bare_write_loses`.) -/
+theorem write_all_delivers (pol : WriteAll.Policy) (w : Writer) (bs : List Byte) (hw : w.failed = false) (hr : w.room = none) :
+    WriteAll.writeAll pol bs.length w.out bs = (w.put bs).out :=
+  WriteAll.writeAll_is_put pol w bs hw hr
 
 end Jawk.C16
